@@ -185,6 +185,13 @@ def run_case(case, acc, want='both'):
                         dec = boost and not eci and micro is None
                         evaluate(acc, ('one', mode, k, kw), content, parts, kw, decode=dec, exp_bytes=eb, want=want)
                         acc.add('bnd_cells', (v, lvl, mode, k - n))
+            # the same length with the version requested and the lowest / no level: boosting must stop exactly at the cell's level
+            for req_lvl in (None, T.levels_of(v)[0]):
+                kw = base_kw(mode)
+                kw['version'] = v
+                if req_lvl is not None:
+                    kw['error'] = req_lvl
+                evaluate(acc, ('one', mode, k, kw), content, parts, kw, decode=False, want=want)
     elif kind == 'len':
         _, mode, lo, hi, quick = case
         for n in range(lo, hi + 1):
